@@ -518,4 +518,101 @@ example : (Package.run gate ⟨fns0, ti0⟩
      ⟨id% "f", ⟨[.leaf (.prim (id% "u16"))], rustUnit⟩⟩]) =
     [.incorrectNumberOfArguments 2 1, .incorrectNumberOfArguments 2 1, .ok, .incorrectNumberOfArguments 2 1] := by decide
 
+/-- Across packages too: whatever a process asked before — of this package or
+    of any other, granted or refused, mentioning the same type constructors or
+    not — the answer to a request is the answer it gets from a cold start. (The
+    process-wide `TypeRegistry` is not state of the model; that its entry for a
+    type is the structure of the type, for every instantiation and whatever
+    was resolved first, is `RotoV.C04Reg.registry_describes_the_type`.) -/
+theorem process_history_independent (before after : List (Package × Request)) (pk : Package) (q : Request) :
+    (processRun gate (before ++ (pk, q) :: after))[before.length]? =
+      some (getFunction (gate pk.ti) pk.fns q.name q.f) := by
+  induction before with
+  | nil => simp [processRun, Package.get]
+  | cons b bs ih => simp [processRun, ih]
+
+example : processRun gate
+    [(⟨fns0, ti0⟩, ⟨id% "f", ⟨[.leaf (.prim (id% "u16"))], rustUnit⟩⟩),
+     (⟨fmFns, ti0⟩, ⟨id% "fm", ⟨[.leaf (.prim (id% "u32"))], .verdict (.leaf (.prim (id% "u32"))) rustUnit⟩⟩),
+     (⟨fns0, ti0⟩, ⟨id% "f", ⟨[.leaf (.prim (id% "u16")), .option (.leaf (.prim (id% "i16")))], rustUnit⟩⟩)]
+    = [.incorrectNumberOfArguments 2 1, .ok, .ok] := by decide
+
+/-! ### T7 — the defaults of literal types reach every depth
+
+  The signature of a filtermap is inferred, so at retrieval time it can still
+  carry literal type variables: `accept Some(70000)` leaves the accept side
+  at `Option[{integer}]`, `reject [[0.5]]` the reject side at
+  `List[List[{float}]]`. The code is compiled with `i32` / `f64` at those
+  positions (`TypeInfo::convert`; tied in `RotoV.C04Sig`), so that is the
+  function's true signature, and the gate has to apply the same defaults
+  wherever the variable sits — not only at the top of a payload. -/
+
+/-- The gate's answer for a type is its answer for the type the code is
+    compiled at: every literal type variable, at any depth, replaced by its
+    default. -/
+theorem gate_deep_default (ti : TypeInfo) (r : RustTy) (t : RotoTy) :
+    gate ti r (deepDefault tables t) = gate ti r t := by
+  unfold gate
+  rw [generated_gate_eq_model, generated_gate_eq_model]
+  exact checkRotoType_deepDefault tables ti r t
+
+/-- … and so is the documented image. -/
+theorem mapping_deep_default (ti : TypeInfo) (hwf : ti.WF) (t : RotoTy) :
+    mapping ti (deepDefault tables t) = mapping ti t := by
+  apply Option.ext
+  intro r
+  rw [← gate_iff ti hwf, ← gate_iff ti hwf, gate_deep_default]
+
+/-- A type with a literal variable below `Option` / `List` / `Result` /
+    `Verdict` is accepted under exactly one Rust type: the image of its
+    compiled form. -/
+theorem nested_literal_iff (ti : TypeInfo) (hwf : ti.WF) (r : RustTy) (t : RotoTy) :
+    gate ti r t = .ok ↔ mapping ti (deepDefault tables t) = some r := by
+  rw [mapping_deep_default ti hwf, gate_iff ti hwf]
+
+theorem sideOk_deep_default (ti : TypeInfo) (hwf : ti.WF) (o : Option RotoTy) (x : RustTy) :
+    sideOk ti (o.map (deepDefault tables)) x ↔ sideOk ti o x := by
+  cases o with
+  | none => rfl
+  | some t => simp only [Option.map_some, sideOk, mapping_deep_default ti hwf]
+
+/-- A filtermap whose payloads are built from unconstrained literals
+    (`accept Some(70000)`, `reject [[0.5]]`, `accept Ok(1)` next to
+    `accept Err(0.5)`) is retrievable exactly as the verdict of the compiled
+    payload types. -/
+theorem filtermap_literal_payload (ti : TypeInfo) (hwf : ti.WF) (fns : Functions) (name : Ident)
+    (params : List RotoTy) (a r : Option RotoTy)
+    (ha : ∀ t, a = some t → isVar t = false) (hr : ∀ t, r = some t → isVar t = false)
+    (hl : lookupFn fns (pkgPrefix ++ name) = some (filtermapSignature (id% "Verdict") params a r))
+    (f : RustFn) :
+    getFunction (gate ti) fns name f = .ok ↔
+      Forall2 (fun t x => mapping ti t = some x) params f.args ∧
+      ∃ ra rr, f.ret = .verdict ra rr ∧
+        sideOk ti (a.map (deepDefault tables)) ra ∧ sideOk ti (r.map (deepDefault tables)) rr := by
+  rw [filtermap_sig ti hwf fns name params a r ha hr hl f]
+  simp only [sideOk_deep_default ti hwf]
+
+/-- `filtermap some() { accept Some(70000) }`, `filtermap many() { accept [1, 2, 3] }`,
+    `filtermap deep(x: bool) { if x { accept Some([70000]) } else { reject Ok(0.5) } }`
+    (the `Err` side of the reject payload is never resolved) -/
+def litFns : Functions :=
+  [(id% "pkg.some", filtermapSignature (id% "Verdict") [] (some (.named (id% "Option") [.intVar])) none),
+   (id% "pkg.many", filtermapSignature (id% "Verdict") [] (some (.named (id% "List") [.intVar])) none),
+   (id% "pkg.deep", filtermapSignature (id% "Verdict") [.named (id% "bool") []]
+      (some (.named (id% "Option") [.named (id% "List") [.intVar]]))
+      (some (.named (id% "Result") [.floatVar, .var 7])))]
+
+example : getFunction (gate ti0) litFns (id% "some") ⟨[], .verdict (.option (.leaf (.prim (id% "i32")))) rustUnit⟩ = .ok := by decide
+example : getFunction (gate ti0) litFns (id% "some") ⟨[], .verdict (.option (.leaf (.prim (id% "i64")))) rustUnit⟩ = .retMismatch := by decide
+example : getFunction (gate ti0) litFns (id% "some") ⟨[], .verdict (.option (.leaf (.prim (id% "u32")))) rustUnit⟩ = .retMismatch := by decide
+example : getFunction (gate ti0) litFns (id% "many") ⟨[], .verdict (.list (.leaf (.prim (id% "i32")))) rustUnit⟩ = .ok := by decide
+example : getFunction (gate ti0) litFns (id% "many") ⟨[], .verdict (.list (.leaf (.prim (id% "f64")))) rustUnit⟩ = .retMismatch := by decide
+/-- a payload with a component nothing resolves has no Rust type at all -/
+example : getFunction (gate ti0) litFns (id% "deep")
+    ⟨[.leaf (.prim (id% "bool"))], .verdict (.option (.list (.leaf (.prim (id% "i32"))))) (.result (.leaf (.prim (id% "f64"))) rustUnit)⟩ = .retMismatch := by decide
+example : deepDefault tables (.named (id% "Option") [.named (id% "List") [.intVar]])
+    = .named (id% "Option") [.named (id% "List") [.named (id% "i32") []]] := by
+  simp [deepDefault, deepDefaultList, tables, RotoTy.named]
+example : gate ti0 (.option (.list (.leaf (.prim (id% "i32"))))) (.named (id% "Option") [.named (id% "List") [.intVar]]) = .ok := by decide
+
 end RotoV.C04
